@@ -494,3 +494,93 @@ Proof.
   rewrite run_None. fold st0. rewrite app_assoc, run_loop_app, Hrun. cbn [app] in ET. rewrite ET.
   rewrite <- app_assoc. reflexivity.
 Qed.
+
+(* ---------------------------------------------------------------- a concrete history (non-vacuity)
+   2019: default buys 50 @ $20, the spouse 20 @ $10; default sells 10 @ $25
+   (gain 50); 2020: default sells 10 @ $15 (loss 50), the spouse 5 @ $12
+   (gain 10); -- 2020-06-01 --; default sells 5 @ $18 (loss, superficial: buys
+   2 @ $19 ten days later) *)
+Local Open Scope Z_scope.
+Definition an_P : list tx :=
+  [wrow 0 737120 (wbuy 50 20) default_aff; wrow 1 737130 (wbuy 20 10) spouse_aff;
+   wrow 2 737220 (wsell 10 25) default_aff; wrow 3 737460 (wsell 10 15) default_aff;
+   wrow 4 737470 (wsell 5 12) spouse_aff].
+Definition an_T : list tx := [wrow 5 737680 (wsell 5 18) default_aff; wrow 6 737690 (wbuy 2 19) default_aff].
+Definition an_date : Z := 737577.
+Definition an_rows : list tx := an_P ++ an_T.
+Definition an_like : tx := wrow 0 0 (wbuy 1 1) default_aff.
+Definition an_d0 : Z := 736695.   (* 2018-01-01 *)
+Definition an_hs : list ahold :=
+  [{| ah_af := default_aff; ah_sh := wq 30 1; ah_aps := Some (wq 20 1); ah_n := wq 32 1 |};
+   {| ah_af := spouse_aff; ah_sh := wq 15 1; ah_aps := Some (wq 10 1); ah_n := wq 16 1 |}].
+Definition an_sells : list asell :=
+  [{| as_af := default_aff; as_date := 737060; as_aps := wq 20 1; as_gain := wq 50 1; as_loss := wq 0 1 |};
+   {| as_af := default_aff; as_date := 737425; as_aps := wq 20 1; as_gain := wq 0 1; as_loss := wq 50 1 |};
+   {| as_af := spouse_aff; as_date := 737425; as_aps := wq 10 1; as_gain := wq 10 1; as_loss := wq 0 1 |}].
+Definition an_runP := run_part exact [] st0 an_P an_T.
+Definition an_B1 := snd (fst (fst an_runP)).
+Definition an_st1 := snd (fst an_runP).
+Definition an_dsT := fst (run_loop exact an_B1 an_st1 an_T).
+Definition no_reg0 : N -> bool := fun _ => false.
+
+(* rows equal up to the representation of the numbers *)
+Definition act_eqb (a b : action) : bool :=
+  match a, b with
+  | Buy s p c r cr, Buy s' p' c' r' cr' => Qceqb s s' && Qceqb p p' && Qceqb c c' && Qceqb r r' && Qceqb cr cr'
+  | Sell s p c r cr None, Sell s' p' c' r' cr' None =>
+      Qceqb s s' && Qceqb p p' && Qceqb c c' && Qceqb r r' && Qceqb cr cr'
+  | _, _ => false
+  end.
+Definition tx_eqb (t u : tx) : bool :=
+  (t_sd t =? t_sd u) && (t_td t =? t_td u) && N.eqb (t_sec t) (t_sec u) && N.eqb (af_id (t_af t)) (af_id (t_af u))
+  && Bool.eqb (t_glob t) (t_glob u) && act_eqb (t_act t) (t_act u).
+Fixpoint txs_eqb (a b : list tx) : bool :=
+  match a, b with [], [] => true | x :: a', y :: b' => tx_eqb x y && txs_eqb a' b' | _, _ => false end.
+
+Lemma an_hypotheses :
+  (* the rows the model generates are the abstract rows *)
+  match make_summary exact an_date (fst (sec_run exact an_rows)) true with
+  | Ok sums => txs_eqb sums (map (abuy_tx an_like an_d0) an_hs ++ map (asell_tx an_like) an_sells)
+  | _ => false
+  end = true
+  /\ NoDup (map (fun h => af_id (ah_af h)) an_hs) /\ Forall ah_ok an_hs
+  /\ (forall h, In h an_hs -> ah_n h = (ah_sh h + qn (cnt (af_id (ah_af h)) an_sells))%Qc)
+  /\ Forall (sell_ok an_hs an_T) an_sells
+  /\ StronglySorted (fun a b => in_gap (as_date a) b) an_sells /\ NoDup (map akey an_sells)
+  /\ Forall (fun s => an_d0 < as_date s - window_days) an_sells
+  /\ snd an_runP = None
+  /\ ps_all an_st1 = tot_sh an_hs /\ lp an_st1 = ps_all an_st1
+  /\ (forall af, goodaf no_reg0 af ->
+        obs an_st1 af = obs_hs an_hs af ah_sh (Q2Qc 0, if af_reg af then None else Some (Q2Qc 0)))
+  /\ run_loop exact an_B1 an_st1 an_T = (an_dsT, None) /\ Forall spec_nz an_T /\ Forall (gooddelta no_reg0) an_dsT
+  /\ Forall (fun d => (d_sfl d <> None -> inert exact (d_sd d - window_days) an_B1)
+                     /\ ((d_sfl d <> None \/ loss_row d) -> an_d0 < d_sd d - window_days)) an_dsT
+  /\ existsb is_sfl_delta an_dsT = true
+  /\ roundtrip_ok exact an_date true an_rows = true
+  /\ K_annual_sell_in_window exact an_date true an_rows = false.
+Proof.
+  split; [vm_compute; reflexivity|].
+  split. { repeat constructor; cbn; intuition discriminate. }
+  split. { repeat constructor; vm_compute; reflexivity || discriminate. }
+  split. { intros h [<-|[<-|[]]]; vm_compute; reflexivity. }
+  split. { repeat constructor; try (eexists; split; vm_compute; reflexivity); try (vm_compute; reflexivity || discriminate);
+           try (intros H; vm_compute in H; discriminate H); try (intros _; vm_compute; reflexivity). }
+  split. { repeat constructor; unfold in_gap, window_days; cbn; lia. }
+  split. { repeat constructor; cbn; intuition discriminate. }
+  split. { repeat constructor; unfold window_days; cbn; lia. }
+  split; [vm_compute; reflexivity|]. split; [vm_compute; reflexivity|]. split; [vm_compute; reflexivity|].
+  split. { intros af _. unfold obs, obs_hs, find_ah, latest_for.
+           set (m := ps_map an_st1). vm_compute in m. subst m. cbn [an_hs find ah_af af_id default_aff spouse_aff alookup].
+           change default_id with 1000%N.
+           destruct (N.eqb_spec (af_id af) 1000) as [E|E].
+           - rewrite E. vm_compute. reflexivity.
+           - destruct (N.eqb_spec 1000 (af_id af)) as [E'|_]; [congruence|].
+             destruct (N.eqb_spec (af_id af) 1003) as [E2|E2].
+             + rewrite E2. vm_compute. reflexivity.
+             + destruct (N.eqb_spec 1003 (af_id af)); [congruence | reflexivity]. }
+  split; [vm_compute; reflexivity|].
+  split. { repeat constructor. }
+  split. { vm_compute. repeat constructor. }
+  split. { vm_compute. repeat constructor; try (intros; reflexivity). }
+  split; [vm_compute; reflexivity|]. split; vm_compute; reflexivity.
+Qed.
